@@ -219,6 +219,7 @@ inductive Out
   | tickRead (ops : List Nat) | ckptCreated (id : Nat) | noTick
   | published (n : Nat) (cur : Option Nat) (notified : List Nat) | nothing
   | spNotRunning | spBusy | spJoined (id : Nat)
+  | queueStuck   -- the job's serial queue is blocked inside an RPC to a member that does not answer
   | evQueued | processed (batch : List (Nat × Nat)) (epoch : Nat) | flushEmpty
   deriving DecidableEq, Repr
 
@@ -373,6 +374,58 @@ def run (s : St) : List Act → St × List Out
     let (s1, o) := step s a
     let (s2, os) := run s1 as
     (s2, o :: os)
+
+/-! ### unresponsive members
+
+`step` describes the job when every RPC to a member returns. Which RPCs can block the job's serial queue when a member
+stops answering (the clients have no timeout and the calls use `context.Background()`): `Deploy` runs in the start
+goroutine (the deployment simply stays in flight: no `deployOk`/`deployFail`), `StartCheckpoint` in the ticker callback
+or the savepoint RPC, `UpdateRetainedCheckpoints` in the retained-ids goroutine — none of them on the queue. But
+`AssignSplits` is posted as a TASK (`start()`, the splitter hook) and waits for every runner: a runner that does not
+answer it blocks the queue for ever. `stepQ` adds exactly that to `step`. -/
+
+structure QSt where
+  s : St
+  hungS : List Nat := []      -- source runners that no longer answer `AssignSplits`
+  hungO : List Nat := []      -- operators that no longer answer `UpdateRetainedCheckpoints`
+  stuck : Bool := false       -- the queue's current task waits for such a runner
+  retainStuck : Bool := false -- the retained-ids goroutine waits for such an operator
+
+/-- the actions that are (or end in) a task of the job's serial queue -/
+def Act.usesQueue : Act → Bool
+  | .regO _ | .regS _ | .deregO _ | .deregS _ | .deployOk | .deployFail _ => true
+  | _ => false
+
+def stepQ (q : QSt) (a : Act) : QSt × Out :=
+  match a with
+  | .deployOk =>
+      if q.stuck then (q, .nostart)   -- no deployment is in flight: the last one never got past AssignSplits
+      else if q.s.status == .starting && q.s.asmSrs.any (fun i => q.hungS.contains i) then
+        -- every HandleDeploy returned; the AssignSplits task never does; the Running task waits behind it
+        ({ q with s := { q.s with procs := deployProcs q.s none }, stuck := true }, .queueStuck)
+      else let (s', o) := step q.s a; ({ q with s := s' }, o)
+  | .publish n =>
+      let (s', o) := step q.s a
+      match o with
+      | .published m cur l =>
+        if q.retainStuck then ({ q with s := s' }, .published m cur [])
+        else ({ q with s := s', retainStuck := l.any (fun i => q.hungO.contains i) }, .published m cur l)
+      | o => ({ q with s := s' }, o)
+  | .deployFail k =>
+      if q.stuck then (q, .nostart) else let (s', o) := step q.s (.deployFail k); ({ q with s := s' }, o)
+  | a =>
+      if q.stuck && a.usesQueue then (q, .queueStuck)
+      else let (s', o) := step q.s a; ({ q with s := s' }, o)
+
+def hang (q : QSt) (op : Bool) (i : Nat) : QSt :=
+  if op then { q with hungO := i :: q.hungO } else { q with hungS := i :: q.hungS }
+
+def runQ (q : QSt) : List Act → QSt × List Out
+  | [] => (q, [])
+  | a :: as =>
+    let (q1, o) := stepQ q a
+    let (q2, os) := runQ q1 as
+    (q2, o :: os)
 
 /-- one complete checkpoint round of the current assembly: the ticker fires, every source runner acknowledges, and
 every operator receives the barrier of every source runner, the snapshot file is written -/
